@@ -96,16 +96,16 @@ Print Assumptions C03_loop_honest_never_banned.
 
 (* F110 (open): without that hypothesis the property is REFUTED on the
    unchanged code.  Two honest peers; the first checkpointed fetch times out;
-   blocks 1999-2000 are replaced by a branch that ends at the same height
-   2000; minCheckpointHeight = 2000 is not below 2000, the lists of the old
+   blocks 999-1000 are replaced by a branch that ends at the same height
+   1000; minCheckpointHeight = 1000 is not below 1000, the lists of the old
    branch are used again (flag 21, no getcfcheckpt sent) and both honest peers
    are banned, nothing is committed.  With a branch one block longer the
    lists are fetched again and the interval is committed. *)
 Theorem C03_loop_stale_lists_refuted :
-  abl (chain_event W.a0 1998 [900001; 900002]) = W.chainB /\
-  W.summary (lrun W.wH (W.cfg false) (linit W.a0 [1; 2] false) W.evs_f110) = (21, [1; 2], 0, 2000) /\
-  louts W.wH (W.cfg false) (linit W.a0 [1; 2] false) W.evs_f110 = [(3, Some 2100, []); (3, None, [1; 2])] /\
-  W.summary (lrun W.wH (W.cfg false) (linit W.a0 [1; 2] false) W.evs_f110_longer) = (0, [], 2000, 2001).
+  abl (chain_event W.a0 998 [900001; 900002]) = W.chainB /\
+  W.summary (lrun W.wH (W.cfg false) (linit W.a0 [1; 2] false) W.evs_f110) = (21, [1; 2], 0, 1000) /\
+  louts W.wH (W.cfg false) (linit W.a0 [1; 2] false) W.evs_f110 = [(3, Some 1100, []); (3, None, [1; 2])] /\
+  W.summary (lrun W.wH (W.cfg false) (linit W.a0 [1; 2] false) W.evs_f110_longer) = (0, [], 1000, 1001).
 Proof.
   exact (conj (proj1 W.f110_run) (conj (proj1 (proj2 W.f110_run)) (conj (proj2 (proj2 W.f110_run))
           (proj2 W.f110_longer_run)))).
@@ -169,30 +169,13 @@ Theorem C03_loop_success_commits : forall H fh,
 Proof. exact round_commits. Qed.
 Print Assumptions C03_loop_success_commits.
 
-(* F111, F112 (repaired): the code before the repair ([c_legacy := true]) on
-   two histories, and the repaired code on the same.
-   F112: peers 2 and 3 lie in checkpoints 0 and 1 of their lists (true
-   cfheaders), tip 2000; before: every round bans 2 again, peer 3 is never
-   examined, nothing committed after 4 rounds; after: round 2 bans 3 and
-   commits 2000 filter headers.
-   F111: nobody answers the first getcfcheckpt, the tip block is replaced;
-   before: the handler keeps asking for the checkpoints up to the block that
-   is gone (stop hash 2100) and gets no answer for ever, honest peers only;
-   after: it asks for the new tip and commits. *)
-Theorem C03_loop_legacy_livelock_refuted :
-  louts W.wH (W.cfg true) (linit W.a0 [1; 2; 3] false) W.evs_f112_legacy =
-    [(2, Some 2100, [2]); (2, None, [2]); (2, None, [2]); (2, None, [2])] /\
-  W.summary (lrun W.wH (W.cfg false) (linit W.a0 [1; 2; 3] false) W.evs_f112_fixed) = (0, [2; 3], 2000, 2000) /\
-  louts W.wH (W.cfg true) (linit W.a0 [1; 2] false) W.evs_f111 =
-    [(1, Some 2100, []); (1, Some 2100, []); (1, Some 2100, [])] /\
-  louts W.wH (W.cfg false) (linit W.a0 [1; 2] false) W.evs_f111 =
-    [(1, Some 2100, []); (3, Some 900012, []); (0, None, [])] /\
-  W.summary (lrun W.wH (W.cfg false) (linit W.a0 [1; 2] false) W.evs_f111) = (0, [], 2000, 2001).
-Proof.
-  exact (conj (proj1 W.f112_legacy_run) (conj (proj2 W.f112_fixed_run) (conj (proj1 W.f111_legacy_run)
-          (conj (proj1 W.f111_fixed_run) (proj2 W.f111_fixed_run))))).
-Qed.
-Print Assumptions C03_loop_legacy_livelock_refuted.
+(* F111, F112 (repaired; no theorem kept about the old code): the model has
+   the code before the repair as [c_legacy := true] (the retry loop keeps the
+   tip it read first - PRetry - and the cached lists); the corpus histories
+   corpus/C03/loop-f111-*.json and loop-f112-*.json, replayed with
+   ReplayLoop.run_lcases_with true against the unrepaired handler, showed the
+   two livelocks (same stop hash asked for ever / same peer banned for ever);
+   C03_loop_failed_attempts_bounded is what the repaired code satisfies. *)
 
 (* The hypotheses about a run are met by a concrete one: 1002 block headers,
    one honest peer; the handler asks for the checkpoints, finds the list,
